@@ -9,6 +9,7 @@ from ..astutil import call_name, calls_in, kwarg, unparse, walk_shallow
 from ..cfg import CFG, CNode, LocalDefs, path_text
 from ..index import AnalysisError, ClassInfo, FuncInfo
 from ..inventory import call_sites, stores_to_attr
+from ..inventory import only_called_from
 from ..report import Ctx
 from ..reqtree import RequestTree
 from ..shapes import ShapeAnalyser
@@ -92,7 +93,7 @@ def r1_1(ctx: Ctx) -> None:
     ctx.record("R1.1", ctx.key(pre, "pre_timestep forwards to the simulation"), pre.loc(), okp, "simulation.pre_timestep(self.step_counter)")
     allowed = {"PrimaiteGame.__init__", "PrimaiteGame.advance_timestep"}
     for s in stores_to_attr(ix, ["step_counter"]):
-        ok = s.owner in allowed
+        ok = s.owner in allowed or bool(only_called_from(ix, s.fn, allowed))
         ctx.record("R1.1", f"{s.path}::{s.owner}::store step_counter", s.where, ok,
                    "episode clock is written only by the constructor (0) and the tick" if ok else "extra writer of the episode clock")
     init = ix.method("PrimaiteGame.__init__")
@@ -194,7 +195,7 @@ def r1_3(ctx: Ctx) -> None:
         if not ix.is_subclass(owner_cls, ix.cls("AbstractAgent")) and "agent" not in unparse(s.recv or ast.Name(id="")).lower():
             continue
         n += 1
-        ok = s.owner == "AbstractAgent.process_action_response"
+        ok = s.owner == "AbstractAgent.process_action_response" or bool(only_called_from(ix, s.fn, ["AbstractAgent.process_action_response"]))
         ctx.record("R1.3", f"{s.path}::{s.owner}::{s.kind} history", s.where, ok,
                    "the only writer of an agent's history" if ok else "second writer of an agent's history")
     ctx.floor("R1.3", "writers of history", n, 1)
